@@ -42,6 +42,7 @@
 // schedule perturbation (harness/c03_sched.cpp); absent in TSan builds
 extern "C" void c03_sched_enable(std::uint64_t seed) __attribute__((weak));
 extern "C" void c03_sched_disable() __attribute__((weak));
+extern "C" void c03_sched_hold_nth(int n, unsigned beforeUs, unsigned afterUs) __attribute__((weak));
 
 namespace net = iora::network;
 using fakeeng::FakeEngine;
@@ -154,6 +155,22 @@ struct SchedPlan
   bool stop = false;
   unsigned stopAtUs = 0;
   std::uint64_t perturbSeed = 0; // != 0: seeded yields/sleeps at mutex operations of callers and I/O thread
+  // ---- teardown placed relative to a victim's onConnect (prop `teardown`)
+  bool dropOwner = false;    // teardown = the owner drops the LAST shared_ptr (~Transport, sets the shutting-down
+                             // fence) while the callers - who use a plain pointer, like a layer holding ITransport& -
+                             // are parked; false: stop()
+  int trigger = 0;           // 0: at stopAtUs after all callers are inside connectSync
+                             // 1: the owner is released right BEFORE the I/O thread fires the victim's onConnect; the
+                             //    handler's unlock of the sync mutex is held back / followed by a pause, so the owner
+                             //    queues on the mutex and sets the fence before the woken caller can run
+                             // 2: the owner is released right AFTER the victim's onConnect returned
+  std::size_t victim = 0;
+  unsigned ownerDelayUs = 0; // owner's reaction delay after its release
+  unsigned holdBeforeUs = 0, holdAfterUs = 0;
+  int holdNth = 2;           // which unlock of the I/O thread inside fireConnect is held: 2 = the transport's sync
+                             // mutex at the end of its onConnect handler; 1 = the fake engine's own mutex BEFORE the
+                             // handler runs (engine->stop() needs it): the fence is set, the callers return
+                             // ShuttingDown, and only then does the still-running engine report onConnect
 };
 
 const char *phaseName(int p)
@@ -178,6 +195,13 @@ std::string describe(const SchedPlan &p)
   d << "callers=" << p.callers.size();
   if (p.stop) d << " stop@" << p.stopAtUs << "us";
   if (p.perturbSeed) d << " perturb=" << p.perturbSeed;
+  if (p.dropOwner || p.trigger)
+  {
+    d << (p.dropOwner ? " teardown=drop-last-owner" : " teardown=stop()");
+    if (p.trigger == 0) d << "@" << p.stopAtUs << "us";
+    else d << (p.trigger == 1 ? " released-before" : " released-after") << "-onConnect(#" << p.victim << ")+" << p.ownerDelayUs << "us";
+    if (p.trigger == 1) d << " hold#" << p.holdNth << "=" << p.holdBeforeUs << "/" << p.holdAfterUs << "us";
+  }
   for (std::size_t i = 0; i < p.callers.size(); ++i)
   {
     auto &c = p.callers[i];
@@ -237,6 +261,8 @@ struct SchedWorld
   bool failTimed = false;
   std::vector<CallerState> cs;
   std::atomic<bool> stopIssued{false};
+  std::atomic<bool> ownerGo{false};   // teardown prop: releases the owner thread
+  std::atomic<unsigned> entered{0};   // callers that are inside engine->connect() (or were refused there)
   std::atomic<unsigned> nPlacedInWindow{0}, nOk{0}, nTimeout{0}, nEngineErr{0}, nCancelled{0}, nShutdown{0},
     nSyncRefused{0}, nLateConnectAfterTimeout{0};
 
@@ -258,7 +284,24 @@ struct SchedWorld
     if (outcome == OutConnect)
     {
       auto before = eng->session(sid);
+      bool isVictim = false;
+      if (plan.trigger != 0)
+      {
+        std::lock_guard<std::mutex> lk(mu);
+        auto it = sidInfo.find(sid);
+        isVictim = it != sidInfo.end() && it->second.caller == plan.victim;
+      }
+      if (isVictim && plan.trigger == 1)
+      {
+        // unlock #1 of this thread inside fireConnect is the fake's own mutex, #2 the transport's
+        // sync mutex at the end of its onConnect handler: keep it locked a little longer (the owner
+        // queues on it) and pause after releasing it (the owner runs before the handler notifies)
+        ownerGo.store(true);
+        if (c03_sched_hold_nth) c03_sched_hold_nth(plan.holdNth, plan.holdBeforeUs, plan.holdAfterUs);
+      }
       if (eng->fireConnect(sid) && before.closeCalls > 0) ++nLateConnectAfterTimeout;
+      if (c03_sched_hold_nth) c03_sched_hold_nth(0, 0, 0);
+      if (isVictim && plan.trigger == 2) ownerGo.store(true);
     }
     else if (outcome == OutFail)
       eng->fireClose(sid, TransportError::Connect, "fake: connection refused");
@@ -287,6 +330,7 @@ void installHooks(SchedWorld &w)
   h.inConnect = [&w](SessionId sid)
   {
     if (tlCaller == ~std::size_t(0)) return;
+    ++w.entered; // this caller holds the sync lock and will be registered + counted before it releases it
     auto &st = w.cs[tlCaller];
     struct HookTimer
     {
@@ -649,6 +693,233 @@ void runSched(pbt::Case &c, const SchedPlan &plan)
         nearExpiry = true;
   if (nearExpiry) c.label("completion within 2 ms of the expiry");
   if (w.nPlacedInWindow || nearExpiry) c.nontrivial(pbt::hash64(describe(plan)));
+}
+
+// --------------------------------------------------------------------------- teardown
+// Forwards to a FakeEngine the harness keeps: the Transport may be destroyed in the middle of a
+// case (prop `teardown`) while the records of the fake are still needed for the verdict.
+class ProxyEngine final : public net::detail::EngineBase
+{
+public:
+  explicit ProxyEngine(FakeEngine *e) : _e(e) {}
+  net::StartResult start() override { return _e->start(); }
+  void stop() override { _e->stop(); }
+  bool isRunning() const override { return _e->isRunning(); }
+  net::TransportErrorInfo lastError() const override { return _e->lastError(); }
+  net::ListenResult addListener(const std::string &b, std::uint16_t p, net::TlsMode t) override { return _e->addListener(b, p, t); }
+  net::ConnectResult connect(const std::string &h, std::uint16_t p, net::TlsMode t) override { return _e->connect(h, p, t); }
+  net::ConnectResult connectViaListener(net::ListenerId l, const std::string &h, std::uint16_t p) override
+  {
+    return _e->connectViaListener(l, h, p);
+  }
+  bool close(SessionId sid) override { return _e->close(sid); }
+  bool send(SessionId sid, const void *d, std::size_t n) override { return _e->send(sid, d, n); }
+  void sendAsync(SessionId sid, const void *d, std::size_t n, net::SendCompleteCallback cb) override
+  {
+    _e->sendAsync(sid, d, n, std::move(cb));
+  }
+  void setCallbacks(Callbacks cbs) override { _e->setCallbacks(std::move(cbs)); }
+  net::TransportStats getStats() const override { return _e->getStats(); }
+  net::TransportAddress getListenerAddress(net::ListenerId l) const override { return _e->getListenerAddress(l); }
+  net::TransportAddress getLocalAddress(SessionId s) const override { return _e->getLocalAddress(s); }
+  net::TransportAddress getRemoteAddress(SessionId s) const override { return _e->getRemoteAddress(s); }
+  bool setDscp(SessionId s, std::uint8_t d) override { return _e->setDscp(s, d); }
+  std::thread::id getIoThreadId() const override { return _e->getIoThreadId(); }
+  void detachForTermination() override { _e->detachForTermination(); }
+  void scheduleSelfDestruct(std::function<void()> d) override { _e->scheduleSelfDestruct(std::move(d)); }
+
+private:
+  FakeEngine *_e;
+};
+
+// Teardown placed relative to a victim's handshake completion. Every caller makes ONE connectSync call
+// through a plain pointer (the teardown handshake of ~Transport waits parked callers out; a second call
+// after the teardown would be a use-after-free by the caller, so there is none). The owner thread
+// starts the teardown only after every caller is inside engine->connect() - from there on the caller
+// is registered and counted before the teardown can take the sync lock.
+void runTeardown(pbt::Case &c, const SchedPlan &plan)
+{
+  pbt::watchdog(60, "C04/connectSync-did-not-return");
+  quietLogs();
+  c.describe(describe(plan));
+  SchedWorld w(plan);
+  auto fake = std::make_unique<FakeEngine>();
+  w.eng = fake.get();
+  std::shared_ptr<net::Transport> owner =
+    net::test::TransportEngineInjector::withEngine(std::make_unique<ProxyEngine>(w.eng), net::TransportConfig{});
+  net::Transport *raw = owner.get();
+  w.eng->setIoThreadId(w.io.id());
+  w.glog.install(*raw);
+  installHooks(w);
+  raw->start();
+  if (plan.perturbSeed && c03_sched_enable)
+    w.io.post([s = plan.perturbSeed] { c03_sched_enable(s * 31 + 7); })->waitDone();
+
+  const unsigned n = static_cast<unsigned>(plan.callers.size());
+  auto t0 = Clock::now();
+  std::vector<int> verdict(n, 0); // 1 ok, 2 ShuttingDown, 3 other error
+  std::vector<std::thread> threads;
+  for (std::size_t ci = 0; ci < n; ++ci)
+  {
+    threads.emplace_back([&, ci] {
+      tlCaller = ci;
+      if (plan.perturbSeed && c03_sched_enable) c03_sched_enable(plan.perturbSeed * 31 + 11 + ci);
+      const CallerPlan &cp = plan.callers[ci];
+      std::this_thread::sleep_until(t0 + std::chrono::microseconds(cp.startDelayUs));
+      auto &st = w.cs[ci];
+      auto timeout = std::chrono::milliseconds(cp.attempts[0].timeoutMs);
+      auto b = Clock::now();
+      auto r = raw->connectSync("192.0.2.1", 5060, net::TlsMode::None, timeout);
+      auto el = Clock::now() - b;
+      // `raw` must not be touched any more: the Transport may be gone
+      verdict[ci] = r.isOk() ? 1 : r.error().code == TransportError::ShuttingDown ? 2 : 3;
+      judgeCall(w, ci, r, el, timeout, false, false);
+      for (auto &f : st.afterReturn) f();
+      st.afterReturn.clear();
+      tlCaller = ~std::size_t(0);
+      if (c03_sched_disable) c03_sched_disable();
+    });
+  }
+  // ---- owner thread = this thread
+  bool barrierOk = false;
+  for (int i = 0; i < 200000; ++i)
+  {
+    if (w.entered.load() >= n)
+    {
+      barrierOk = true;
+      break;
+    }
+    std::this_thread::sleep_for(std::chrono::microseconds(50));
+  }
+  bool released = false;
+  if (barrierOk)
+  {
+    auto tb = Clock::now();
+    if (plan.trigger == 0)
+    {
+      auto until = tb + std::chrono::microseconds(plan.stopAtUs);
+      while (Clock::now() < until) {}
+    }
+    else
+    {
+      // spin: the owner must react within the woken caller's wake-up latency
+      auto giveUp = tb + std::chrono::milliseconds(100);
+      while (!w.ownerGo.load() && Clock::now() < giveUp) {}
+      released = w.ownerGo.load();
+      auto until = Clock::now() + std::chrono::microseconds(plan.ownerDelayUs);
+      while (Clock::now() < until) {}
+    }
+    w.stopIssued.store(true);
+    if (plan.dropOwner) owner.reset(); // ~Transport: fence, engine stop, waits the parked callers out
+    else raw->stop();
+  }
+  for (auto &th : threads) th.join();
+  w.io.drain();
+  if (!barrierOk)
+  {
+    owner.reset();
+    w.io.join();
+    c.inconclusive("callers did not all reach connect() in time");
+    return;
+  }
+  std::set<SessionId> handed;
+  {
+    std::lock_guard<std::mutex> lk(w.mu);
+    handed = w.handed;
+  }
+  // ---- the property's verdict: an error => no global callback ever for that id, and the session is closed
+  if (w.failSig.empty())
+  {
+    std::lock_guard<std::mutex> lk(w.glog.mu);
+    for (auto sid : w.glog.connects)
+      if (!handed.count(sid))
+      {
+        w.failSig = "C04/global-onConnect-for-unreturned-session";
+        w.failWhat = pbt::Fmt() << "global onConnect fired for session " << sid << " which no connectSync call returned to its caller";
+        break;
+      }
+    if (w.failSig.empty())
+      for (auto sid : w.glog.closes)
+        if (!handed.count(sid))
+        {
+          auto s = w.eng->session(sid);
+          std::size_t who = 0;
+          {
+            std::lock_guard<std::mutex> lk2(w.mu);
+            auto it = w.sidInfo.find(sid);
+            if (it != w.sidInfo.end()) who = it->second.caller;
+          }
+          w.failSig = "C04/global-onClose-for-unreturned-session";
+          w.failWhat = pbt::Fmt() << "teardown: global onClose fired for session " << sid << " of caller #" << who << ", whose connectSync returned "
+                                  << (verdict[who] == 2 ? "ShuttingDown" : verdict[who] == 3 ? "an error" : "ok for another id")
+                                  << " (engine order for it: onConnect@" << s.connectFiredSeq << ", onClose@" << s.closeFiredSeq
+                                  << "): the session was connected, handed to nobody, and its close reached the application";
+          break;
+        }
+  }
+  if (w.failSig.empty())
+    for (auto &kv : w.eng->sessions())
+      if (kv.second.st != fakeeng::SessState::Closed)
+      {
+        w.failSig = "C04/attempt-left-open";
+        w.failWhat = pbt::Fmt() << "session " << kv.first << " is still open after the teardown";
+        break;
+      }
+  w.eng->setIoThreadId(std::thread::id{});
+  owner.reset();
+  w.io.join();
+  if (!w.failSig.empty())
+  {
+    if (w.failTimed) c.failTimed(w.failSig, w.failWhat);
+    else c.fail(w.failSig, w.failWhat);
+    return;
+  }
+  c.label(plan.dropOwner ? "teardown: last owner dropped" : "teardown: stop()");
+  c.label(plan.trigger == 0 ? "teardown at a generated time" : plan.trigger == 1 ? "owner released before the victim's onConnect (held unlock)" : "owner released after the victim's onConnect");
+  if (plan.trigger != 0)
+  {
+    c.label(released ? "victim's onConnect fired before the teardown" : "victim's onConnect did not fire in time");
+    int v = verdict[plan.victim];
+    c.label(v == 1 ? "victim returned ok" : v == 2 ? "victim returned ShuttingDown" : "victim returned another error");
+  }
+  if (w.nOk) c.label("ok returned");
+  if (w.nShutdown) c.label("ShuttingDown returned");
+  if (w.nTimeout) c.label("Timeout returned");
+  if (w.nEngineErr) c.label("engine error returned");
+  if (plan.trigger != 0 && released) c.nontrivial(pbt::hash64(describe(plan)));
+}
+
+SchedPlan genTeardown(pbt::Src &src)
+{
+  SchedPlan p;
+  std::size_t n = src.weighted({3, 2, 2, 1, 1, 1, 1, 1}) + 1;
+  std::vector<std::size_t> connecting;
+  for (std::size_t i = 0; i < n; ++i)
+  {
+    CallerPlan cp;
+    cp.startDelayUs = static_cast<unsigned>(src.range(0, 200));
+    Attempt a;
+    a.timeoutMs = src.oneOf<unsigned>({3000, 3000, 3000, 20, 5});
+    a.outcome = static_cast<int>(src.weighted({6, 2, 2})); // onConnect, onClose(err), nothing
+    if (a.outcome == OutHole && a.timeoutMs == 3000) a.timeoutMs = 20; // nothing happens: only the teardown or a short timeout ends it
+    a.phase = src.coin(1, 4) ? PhInConnect : PhParked;
+    a.delayUs = static_cast<unsigned>(a.phase == PhParked ? src.range(0, 1500) : src.range(0, 199));
+    a.closeProc = static_cast<int>(src.range(0, 2));
+    a.closeDelayUs = static_cast<unsigned>(src.range(0, 300));
+    cp.attempts.push_back(a);
+    if (a.outcome == OutConnect) connecting.push_back(i);
+    p.callers.push_back(cp);
+  }
+  p.dropOwner = src.coin(5, 6);
+  p.stopAtUs = static_cast<unsigned>(src.range(0, 2000));
+  p.trigger = connecting.empty() ? 0 : static_cast<int>(src.weighted({1, 4, 3}));
+  if (p.trigger) p.victim = connecting[static_cast<std::size_t>(src.range(0, static_cast<std::int64_t>(connecting.size()) - 1))];
+  p.ownerDelayUs = static_cast<unsigned>(src.range(0, 200));
+  p.holdBeforeUs = src.oneOf<unsigned>({0, 100, 400});
+  p.holdAfterUs = src.oneOf<unsigned>({0, 100, 400});
+  p.holdNth = src.coin(1, 4) ? 1 : 2;
+  p.perturbSeed = src.coin(1, 2) ? static_cast<std::uint64_t>(src.range(1, 1 << 20)) : 0;
+  return p;
 }
 
 SchedPlan genSched(pbt::Src &src)
@@ -1283,6 +1554,61 @@ PBT_REGRESSION(real_targets_definite_errors)
     p.callers.push_back(rc);
   }
   runReal(c, p);
+}
+
+PBT_PROPERTY(teardown)
+{
+  SchedPlan p = genTeardown(src);
+  runTeardown(c, p);
+}
+
+PBT_REGRESSION(teardown_right_after_onconnect)
+{
+  // the I/O thread resolves the parked caller's attempt to ok(sid) and erases the registration; while it
+  // still holds the sync mutex the owner drops the last reference (queues on the mutex), sets the
+  // shutting-down fence as soon as the handler releases it, and only then does the woken caller run.
+  // Both outcomes are legal (ok, or an error with the close suppressed) - an error PLUS the global
+  // onClose for that id is not.
+  SchedPlan p;
+  CallerPlan cp;
+  Attempt a;
+  a.timeoutMs = 3000;
+  a.outcome = OutConnect;
+  a.phase = PhParked;
+  a.delayUs = 300;
+  cp.attempts.push_back(a);
+  p.callers.push_back(cp);
+  p.dropOwner = true;
+  p.trigger = 1;
+  p.victim = 0;
+  p.ownerDelayUs = 30;
+  p.holdBeforeUs = 400;
+  p.holdAfterUs = 400;
+  runTeardown(c, p);
+}
+
+PBT_REGRESSION(onconnect_between_fence_and_engine_stop)
+{
+  // the owner drops the last reference while the caller is parked: the fence wakes the caller, which returns
+  // ShuttingDown; the engine is still running (its stop() has not been reached yet) and reports onConnect for
+  // that attempt, then the shutdown drain closes the session. The close must stay suppressed.
+  SchedPlan p;
+  CallerPlan cp;
+  Attempt a;
+  a.timeoutMs = 3000;
+  a.outcome = OutConnect;
+  a.phase = PhParked;
+  a.delayUs = 300;
+  cp.attempts.push_back(a);
+  p.callers.push_back(cp);
+  p.dropOwner = true;
+  p.trigger = 1;
+  p.victim = 0;
+  p.ownerDelayUs = 0;
+  p.holdNth = 1;     // pause right after the fake released its own mutex, before it invokes the transport's handler:
+  p.holdBeforeUs = 0; // the owner gets through the fence and into engine->stop() in the meantime
+  p.holdAfterUs = 800;
+  runTeardown(c, p);
 }
 
 PBT_REGRESSION(late_onconnect_inside_timeout_close)
